@@ -140,9 +140,12 @@ def parse_model(o):
 
 
 # ----------------------------------------------------------------------------------------------- oracle (S)
-def doc_plan(length, step, ms):
-    """documented sampling rule (class docstring / property mechanism): n = max(min_samples, int(length/step))"""
-    n = max(ms, int(length / step))
+EXTRA = {'cart': 0, 'cyl': 0}      # set by run() from the translator (0 = tree as it is, 1 = with notes/fixes/C10-1.diff)
+
+
+def doc_plan(length, step, ms, geo='cart'):
+    """sampling rule as written in the source (read by the translator): n = max(min_samples, int(length/step) + extra)"""
+    n = max(ms, int(length / step) + EXTRA[geo])
     return n, length / n
 
 
@@ -260,7 +263,7 @@ def check_oracle(ctx, cfg, step, ms, seg, spec0, entries, desc, L=None, pcs=None
             ctx.fail('C10:%s:short-path-not-skipped' % cfg['geo'], 'path %.3g < 0.1*step but the spectrum changed' % L, desc)
             return False
         return True
-    n, dt = doc_plan(L, step, ms)
+    n, dt = doc_plan(L, step, ms, cfg['geo'])
     got = [entries[j] - spec0[j] for j in range(nb)]
     tiny = 1e-12 * max(L, 1.0) + slack
     # per source: chord and number of maximal runs along the ray
@@ -322,13 +325,6 @@ def check_oracle(ctx, cfg, step, ms, seg, spec0, entries, desc, L=None, pcs=None
     if dt > 2 * step and L >= step:
         ctx.fail('C10:dt-exceeds-two-steps', 'dt %r > 2*step %r for length %r' % (dt, step, L), desc)
         ok = False
-    # literal reading "two integration steps" = 2*step per cell: monitored, reported in the notes when exceeded
-    worst = max([abs(got[j] - chord[j]) for j in range(nb)] + [0.0])
-    if cfg['kind'] == 'id' and worst > 2 * step * (1 + TOL) + tiny:
-        ctx.count('monitor:cell-error>2*step')
-        ex = ctx.extra.setdefault('monitor_error_gt_2step', [])
-        if len(ex) < 3:
-            ex.append(dict(worst=worst, step=step, dt=dt, max_runs=max(runs), input=desc))
     return ok
 
 
@@ -351,6 +347,57 @@ def _near_sources(cfg, vm, pcs):
                 for c in pcs:
                     near.add(int(vm[0, j, c[2][2]]))
     return near
+
+
+def cell_entries(ctx, cfg, step, ms, seg, ent, spec0, desc):
+    """entries per grid cell under the one-source-per-cell map (C order), or None"""
+    if cfg['kind'] == 'id':
+        return [a - b for a, b in zip(ent, spec0)]
+    st, ent_id = impl_integrate(cfg, step, ms, seg, None, ident=True)
+    if st != 'ok':
+        ctx.fail('C10:%s:identity-map-raised' % cfg['geo'], 'identity map raised %s where the mapped emitter did not' % st, desc)
+        return None
+    return ent_id
+
+
+def check_literal(ctx, cfg, step, ms, seg, L, pcs, cells, desc, slack=0.0):
+    """the literal clause: every CELL's entry is within two integration steps (2*step) of its exact chord.
+    cells: entries per grid cell under the identity map.  Signatures:
+      > (#intervals)*dt                      -> C10:<geo>:cell-entry-vs-chord                       (sampling broken)
+      > 2*step, >= 3 intervals               -> C10:cyl:cell-error-exceeds-two-steps:multi-interval  (inherent to sampling)
+      > 2*step, <= 2 intervals               -> C10:<geo>:cell-error-exceeds-two-steps:coarse-step   (dt > step; notes/fixes/C10-1.diff)"""
+    if L < 0.1 * step or cells is None:
+        return
+    n, dt = doc_plan(L, step, ms, cfg['geo'])
+    sh = cfg['shape']
+    chord, runs = {}, {}
+    prev = None
+    for t0, t1, c in pcs:
+        if c is None:
+            prev = None
+            continue
+        chord[c] = chord.get(c, 0.0) + (t1 - t0)
+        if prev != c:
+            runs[c] = runs.get(c, 0) + 1
+        prev = c
+    tiny = 1e-12 * max(L, 1.0) + slack
+    for c, ch in chord.items():
+        e = cells[(c[0] * sh[1] + c[1]) * sh[2] + c[2]]
+        err = abs(e - ch)
+        k = runs[c]
+        info = 'cell %r: entry %r, exact chord %r in %d interval(s); |diff| = %.6g = %.3f*step = %.3f*dt (step %r, dt %r, n %d)' % (
+            c, e, ch, k, err, err / step, err / dt, step, dt, n)
+        if err > k * dt * (1 + TOL) + tiny:
+            ctx.fail('C10:%s:cell-entry-vs-chord' % cfg['geo'], info + ' exceeds the sampling bound (#intervals)*dt', desc)
+        elif err > 2 * step * (1 + TOL) + tiny:
+            if k >= 3:
+                ctx.count('literal:>2*step:%d-intervals' % min(k, 6))
+                ctx.fail('C10:%s:cell-error-exceeds-two-steps:multi-interval' % cfg['geo'], info, desc)
+            else:
+                ctx.count('literal:>2*step:coarse-step')
+                ctx.fail('C10:%s:cell-error-exceeds-two-steps:coarse-step' % cfg['geo'], info, desc)
+        else:
+            ctx.count('literal:within-2*step')
 
 
 # ----------------------------------------------------------------------------------------------- segments
@@ -536,7 +583,9 @@ def direct_stream(ctx, n_cases, cap):
                 ctx.count('S:skipped-leaves-grid')
             else:
                 check_oracle(ctx, cfg, m['step'], m['ms'], m['seg'], m['spec0'], m['ent'], desc, L, pcs)
-                check_merge(ctx, m)
+                cells = cell_entries(ctx, cfg, m['step'], m['ms'], m['seg'], m['ent'], m['spec0'], desc)
+                check_merge(ctx, m, cells)
+                check_literal(ctx, cfg, m['step'], m['ms'], m['seg'], L, pcs, cells, desc)
         elif m['st'] != 'ok' and not m['short']:
             # an exception is only legitimate when the path leaves the grid
             L, pcs = pieces(cfg, m['seg'])
@@ -559,14 +608,10 @@ def _well_inside(cfg, seg):
     return True
 
 
-def check_merge(ctx, m):
+def check_merge(ctx, m, ent_id):
     """entry under the map == sum over cells of the entries under the one-source-per-cell map"""
     cfg = m['cfg']
-    if cfg['kind'] == 'id':
-        return
-    st, ent_id = impl_integrate(cfg, m['step'], m['ms'], m['seg'], None, ident=True)
-    if st != 'ok':
-        ctx.fail('C10:%s:identity-map-raised' % cfg['geo'], 'identity map raised %s where the mapped emitter did not' % st, m['desc'])
+    if cfg['kind'] == 'id' or ent_id is None:
         return
     vm = vmap_of(cfg).ravel()
     nb = len(m['ent'])
@@ -705,133 +750,128 @@ def clip_cyl(o, d, r_in, r_out, h):
     return [(a, b_) for a, b_ in res if b_ > a]
 
 
-def e2e_stream(ctx, n_cases, cap):
-    """K(b) + S end to end through RayTransferBox / RayTransferCylinder and Ray.trace"""
-    from raysect.optical import World, Ray, Point3D, Vector3D, AffineMatrix3D
+def build_rt(ctx, cfg, step_arg, tr, world):
+    """real RayTransferBox / RayTransferCylinder for a configuration, with a recording integrator; also returns the
+    documented bounding primitive (re-derived here, not read from the object), and the model line for the geometry"""
     from cherab.tools.raytransfer import RayTransferBox, RayTransferCylinder
     from cherab.tools.raytransfer.emitters import CartesianRayTransferIntegrator, CylindricalRayTransferIntegrator
-    rng = ctx.rng
-    RecCart, RecCyl = _recording(CartesianRayTransferIntegrator), _recording(CylindricalRayTransferIntegrator)
-    lines, metas, glines, gexp = [], [], [], []
-    for it in range(n_cases):
-        edge = it % 5 == 4
-        world = World()
-        tr = None if edge else rnd_transform(rng)
-        if rng.random() < 0.45:
-            cfg = make_cart(rng, edge)
-            sh = cfg['shape']
-            ext = [sh[a] * cfg['steps'][a] for a in range(3)]
-            step = None if rng.random() < 0.5 else rnd_step(rng, cfg, max(ext), edge, cap)
-            rt = RayTransferBox(ext[0], ext[1], ext[2], sh[0], sh[1], sh[2], step=step, voxel_map=cfg['vmap'], mask=cfg['mask'],
-                                parent=world, transform=tr)
-            glines.append('boxgeom %s %d %d %d' % (fs(ext), sh[0], sh[1], sh[2]))
-            up = rt._primitive.upper
-            lo = rt._primitive.lower
-            gexp.append([rt.material.dx, rt.material.dy, rt.material.dz, rt.step if step is None else None, up.x, up.y, up.z])
-            if (lo.x, lo.y, lo.z) != (0.0, 0.0, 0.0):
-                ctx.fail('C10:box:lower-corner', 'Box lower corner %r is not the grid origin' % ((lo.x, lo.y, lo.z),), dict(ext=ext))
-            cfg['steps'] = (rt.material.dx, rt.material.dy, rt.material.dz)
-            bound = dict(kind='box', upper=[ext[a] - 1e-5 * ext[a] / sh[a] for a in range(3)])
-            centre = [0.5 * e for e in ext]
-            size = max(ext)
-            rec = RecCart(rt.step)
+    sh = cfg['shape']
+    if cfg['geo'] == 'cart':
+        ext = [sh[a] * cfg['steps'][a] for a in range(3)]
+        rt = RayTransferBox(ext[0], ext[1], ext[2], sh[0], sh[1], sh[2], step=step_arg, voxel_map=cfg['vmap'], mask=cfg['mask'],
+                            parent=world, transform=tr)
+        gline = 'boxgeom %s %d %d %d' % (fs(ext), sh[0], sh[1], sh[2])
+        up, lo = rt._primitive.upper, rt._primitive.lower
+        gexp = [rt.material.dx, rt.material.dy, rt.material.dz, rt.step if step_arg is None else None, up.x, up.y, up.z]
+        if (lo.x, lo.y, lo.z) != (0.0, 0.0, 0.0):
+            ctx.fail('C10:box:lower-corner', 'Box lower corner %r is not the grid origin' % ((lo.x, lo.y, lo.z),), dict(ext=ext))
+        cfg['steps'] = (rt.material.dx, rt.material.dy, rt.material.dz)
+        bound = dict(kind='box', upper=[ext[a] - 1e-5 * ext[a] / sh[a] for a in range(3)], centre=[0.5 * e for e in ext], size=max(ext))
+        rec = _recording(CartesianRayTransferIntegrator)(rt.step)
+    else:
+        rin = cfg['rmin']
+        rout, h = rin + sh[0] * cfg['steps'][0], sh[2] * cfg['steps'][2]
+        rt = RayTransferCylinder(rout, h, sh[0], sh[2], radius_inner=rin, n_polar=sh[1], period=cfg['period'], step=step_arg,
+                                 voxel_map=cfg['vmap'], mask=cfg['mask'], parent=world, transform=tr)
+        gline = 'cylgeom %s %d %d %s %d %s' % (fs([rout, h]), sh[0], sh[2], f2b(rin), sh[1], f2b(cfg['period']))
+        pa, pb = rt._primitive.primitive_a, rt._primitive.primitive_b
+        gexp = [rt.material.dr, rt.material.dphi, rt.material.dz, rt.step if step_arg is None else None, pa.radius, pb.radius, pa.height]
+        if pb.height != pa.height:
+            gexp[-1] = float('nan')
+        cfg['steps'] = (rt.material.dr, rt.material.dphi, rt.material.dz)
+        dr_, dz_ = (rout - rin) / sh[0], h / sh[2]
+        bound = dict(kind='cyl', r_in=rin + 1e-5 * dr_, r_out=rout - 1e-5 * dr_, h=h - 1e-5 * dz_, centre=[0.0, 0.0, 0.5 * h],
+                     size=max(2 * rout, h))
+        rec = _recording(CylindricalRayTransferIntegrator)(rt.step)
+    cfg['mat'] = rt.material
+    rec.log = []
+    rt.material.integrator = rec
+    vm = np.asarray(rt.voxel_map)
+    if rt.bins != int(vm.max()) + 1:
+        ctx.fail('C10:bins', 'RayTransferObject.bins %r but voxel_map.max()+1 = %r' % (rt.bins, int(vm.max()) + 1), dict(voxel_map=vm.ravel().tolist()))
+    return rt, rec, bound, gline, gexp
+
+
+def gen_ray(rng, cfg, bound, edge):
+    """ray in the object's local frame: (origin, unit direction, class)"""
+    centre, size = bound['centre'], bound['size']
+    k = rng.random()
+    if k < 0.2:
+        if bound['kind'] == 'box':
+            o = [rng.uniform(0.05, 0.95) * bound['upper'][a] for a in range(3)]
         else:
-            cfg = make_cyl(rng, edge)
-            sh = cfg['shape']
-            rin = cfg['rmin']
-            rout, h = rin + sh[0] * cfg['steps'][0], sh[2] * cfg['steps'][2]
-            step = None if rng.random() < 0.5 else rnd_step(rng, cfg, max(2 * rout, h), edge, cap)
-            rt = RayTransferCylinder(rout, h, sh[0], sh[2], radius_inner=rin, n_polar=sh[1], period=cfg['period'], step=step,
-                                     voxel_map=cfg['vmap'], mask=cfg['mask'], parent=world, transform=tr)
-            glines.append('cylgeom %s %d %d %s %d %s' % (fs([rout, h]), sh[0], sh[2], f2b(rin), sh[1], f2b(cfg['period'])))
-            pa, pb = rt._primitive.primitive_a, rt._primitive.primitive_b
-            gexp.append([rt.material.dr, rt.material.dphi, rt.material.dz, rt.step if step is None else None, pa.radius, pb.radius, pa.height])
-            if pb.height != pa.height:
-                gexp[-1][-1] = float('nan')
-            cfg['steps'] = (rt.material.dr, rt.material.dphi, rt.material.dz)
-            dr_, dz_ = (rout - rin) / sh[0], h / sh[2]
-            bound = dict(kind='cyl', r_in=rin + 1e-5 * dr_, r_out=rout - 1e-5 * dr_, h=h - 1e-5 * dz_)
-            centre = [0.0, 0.0, 0.5 * h]
-            size = max(2 * rout, h)
-            rec = RecCyl(rt.step)
-        cfg['mat'] = rt.material
-        rec.log = []
-        rt.material.integrator = rec
-        vm = np.asarray(rt.voxel_map)
-        if rt.bins != int(vm.max()) + 1:
-            ctx.fail('C10:bins', 'RayTransferObject.bins %r but voxel_map.max()+1 = %r' % (rt.bins, int(vm.max()) + 1), dict(voxel_map=vm.ravel().tolist()))
-        # rays in local coordinates, mapped to world with the object's transform
-        for _ in range(3):
-            k = rng.random()
-            if k < 0.2:
-                # starting inside
-                if bound['kind'] == 'box':
-                    o = [rng.uniform(0.05, 0.95) * bound['upper'][a] for a in range(3)]
-                else:
-                    r0 = rng.uniform(bound['r_in'] + 0.05 * cfg['steps'][0], bound['r_out'] - 0.05 * cfg['steps'][0])
-                    ph = rng.uniform(-math.pi, math.pi)
-                    o = [r0 * math.cos(ph), r0 * math.sin(ph), rng.uniform(0.05, 0.95) * bound['h']]
-                d = [rng.gauss(0, 1) for _ in range(3)]
-                rcls = 'inside'
-            elif k < 0.4 or edge:
-                # axis-parallel from outside
-                a = rng.randrange(3)
-                if bound['kind'] == 'box':
-                    o = [pick(rng, 0.0, bound['upper'][b] * 0.999, edge, 0.125 * cfg['steps'][b]) for b in range(3)]
-                else:
-                    r0 = rng.uniform(0.0, bound['r_out'] * 0.999)
-                    ph = rng.uniform(-math.pi, math.pi)
-                    o = [r0 * math.cos(ph), r0 * math.sin(ph), rng.uniform(0.001, 0.999) * bound['h']]
-                    if edge:
-                        o = [round(v * 16) / 16 for v in o]
-                sgn = rng.choice([-1.0, 1.0])
-                o[a] = centre[a] - sgn * 2.0 * size
-                d = [0.0, 0.0, 0.0]
-                d[a] = sgn
-                rcls = 'axis'
-            else:
-                tgt = [centre[a] + rng.uniform(-0.55, 0.55) * size for a in range(3)]
-                d = [rng.gauss(0, 1) for _ in range(3)]
-                nd = math.sqrt(sum(c * c for c in d))
-                d = [c / nd for c in d]
-                o = [tgt[a] - 2.0 * size * d[a] for a in range(3)]
-                rcls = 'random'
-            nd = math.sqrt(sum(c * c for c in d))
-            d = [c / nd for c in d]
-            # expected segments by exact clipping against the shrunk primitive (local frame)
-            if bound['kind'] == 'box':
-                iv = clip_box(o, d, bound['upper'])
-                ivs = [iv] if iv else []
-            else:
-                ivs = clip_cyl(o, d, bound['r_in'], bound['r_out'], bound['h'])
-            po, vd = Point3D(*o), Vector3D(*d)
-            if tr is not None:
-                po, vd = po.transform(tr), vd.transform(tr)
-            rec.log = []
-            ray = Ray(origin=po, direction=vd, min_wavelength=500.0, max_wavelength=501.0, bins=rt.bins)
-            st, sp = call(ray.trace, world)
-            desc = dict(kind='e2e', geo=cfg['geo'], shape=sh, steps=cfg['steps'], rmin=cfg.get('rmin'), period=cfg.get('period'),
-                        voxel_map=vm.ravel().tolist(), step=rt.step, origin=o, direction=d,
-                        transform=[[tr[i, j] for j in range(4)] for i in range(4)] if tr is not None else None, cls=rcls)
-            ctx.count('E:%s:%s' % (cfg['geo'], rcls))
-            if st != 'ok':
-                ctx.fail('C10:%s:trace-raised' % cfg['geo'], 'Ray.trace raised %s: %s' % (st, sp), desc)
-                continue
-            ent = [float(v) for v in sp.samples]
-            segs = [list(s) for s in rec.log]
-            metas.append(dict(cfg=cfg, step=rt.step, ent=ent, segs=segs, desc=desc, first=len(lines), ivs=ivs, o=o, d=d, vm=vm))
-            for s in segs:
-                lines.append(model_line(cfg, rt.step, 2, s, [0.0] * rt.bins, vm, rt.bins))
-    outs = ctx.driver(lines) if lines else []
-    gout = ctx.driver(glines)
+            r0 = rng.uniform(bound['r_in'] + 0.05 * cfg['steps'][0], bound['r_out'] - 0.05 * cfg['steps'][0])
+            ph = rng.uniform(-math.pi, math.pi)
+            o = [r0 * math.cos(ph), r0 * math.sin(ph), rng.uniform(0.05, 0.95) * bound['h']]
+        d = [rng.gauss(0, 1) for _ in range(3)]
+        rcls = 'inside'
+    elif k < 0.4 or edge:
+        a = rng.randrange(3)
+        if bound['kind'] == 'box':
+            o = [pick(rng, 0.0, bound['upper'][b] * 0.999, edge, 0.125 * cfg['steps'][b]) for b in range(3)]
+        else:
+            r0 = rng.uniform(0.0, bound['r_out'] * 0.999)
+            ph = rng.uniform(-math.pi, math.pi)
+            o = [r0 * math.cos(ph), r0 * math.sin(ph), rng.uniform(0.001, 0.999) * bound['h']]
+            if edge:
+                o = [round(v * 16) / 16 for v in o]
+        sgn = rng.choice([-1.0, 1.0])
+        o[a] = centre[a] - sgn * 2.0 * size
+        d = [0.0, 0.0, 0.0]
+        d[a] = sgn
+        rcls = 'axis'
+    else:
+        tgt = [centre[a] + rng.uniform(-0.45, 0.45) * size for a in range(3)]
+        d = [rng.gauss(0, 1) for _ in range(3)]
+        nd = math.sqrt(sum(c * c for c in d))
+        d = [c / nd for c in d]
+        o = [tgt[a] - 2.0 * size * d[a] for a in range(3)]
+        rcls = 'random'
+    nd = math.sqrt(sum(c * c for c in d))
+    return o, [c / nd for c in d], rcls
+
+
+def trace_ray(ctx, cfg, rt, rec, tr, bound, o, d, rcls, step_arg, world, lines):
+    """trace one ray through the real scene; returns the meta record (model lines appended to `lines`) or None"""
+    from raysect.optical import Ray, Point3D, Vector3D
+    if bound['kind'] == 'box':
+        iv = clip_box(o, d, bound['upper'])
+        ivs = [iv] if iv else []
+    else:
+        ivs = clip_cyl(o, d, bound['r_in'], bound['r_out'], bound['h'])
+    po, vd = Point3D(*o), Vector3D(*d)
+    if tr is not None:
+        po, vd = po.transform(tr), vd.transform(tr)
+    rec.log = []
+    vm = np.asarray(rt.voxel_map)
+    ray = Ray(origin=po, direction=vd, min_wavelength=500.0, max_wavelength=501.0, bins=rt.bins)
+    st, sp = call(ray.trace, world)
+    desc = dict(kind='e2e', geo=cfg['geo'], shape=cfg['shape'], steps=cfg['steps'], rmin=cfg.get('rmin'), period=cfg.get('period'),
+                voxel_map=vm.ravel().tolist(), step=rt.step, step_arg=step_arg, origin=o, direction=d,
+                transform=[[tr[i, j] for j in range(4)] for i in range(4)] if tr is not None else None, cls=rcls)
+    ctx.count('E:%s:%s' % (cfg['geo'], rcls))
+    if st != 'ok':
+        ctx.fail('C10:%s:trace-raised' % cfg['geo'], 'Ray.trace raised %s: %s' % (st, sp), desc)
+        return None
+    ent = [float(v) for v in sp.samples]
+    segs = [list(s) for s in rec.log]
+    m = dict(cfg=cfg, step=rt.step, ent=ent, segs=segs, desc=desc, first=len(lines), ivs=ivs, o=o, d=d, vm=vm)
+    for s in segs:
+        lines.append(model_line(cfg, rt.step, 2, s, [0.0] * rt.bins, vm, rt.bins))
+    return m
+
+
+def judge_e2e(ctx, metas, outs, glines, gexp, gout):
     for gl, ge, go in zip(glines, gexp, gout):
         ctx.traces += 1
         mod = [b2f(t) for t in go.split()]
+        ge = list(ge)
         if ge[3] is None:                       # explicit step given: the default-step rule is not exercised
             mod[3] = ge[3] = 0.0
         if not close(mod, ge, 1e-15, 0.0):
             ctx.disagreements += 1
             ctx.broke('correspondence', 'C10 bounding primitive / grid steps', dict(line=gl, model=mod, implementation=ge))
+            # S: is the primitive still inside the grid?  (the property needs every sample index in range)
     for m in metas:
         cfg, desc = m['cfg'], m['desc']
         nb = len(m['ent'])
@@ -866,13 +906,13 @@ def e2e_stream(ctx, n_cases, cap):
                        key=lambda sg: _along(sg, o, d))
         if len(exp_segs) != len(rsegs) or any(max(abs(a - b) for a, b in zip(es, gs)) > 1e-6 * scale for es, gs in zip(exp_segs, rsegs)):
             ctx.fail('C10:%s:bounding-primitive' % cfg['geo'],
-                     'integrated segments %r differ from the exact intersection with the bounding primitive %r' % (m['segs'], exp_segs), desc)
+                     'integrated segments %r differ from the exact intersection with the documented bounding primitive %r' % (m['segs'], exp_segs), desc)
             continue
-        # oracle on the expected geometry: per segment bounds add up
+        ctx.count('E:segments=%d' % len(rsegs))
         ok = True
         acc = [0.0] * nb
         for s in m['segs']:
-            # entries of a single segment are not observable separately; use the model-free re-integration by the real integrator
+            # entries of a single segment are not observable separately in the traced spectrum: re-integrate it with the real integrator
             st, e1 = impl_integrate(cfg, m['step'], 2, s, None)
             if st != 'ok':
                 ctx.fail('C10:%s:segment-raised' % cfg['geo'], 'integrate raised %s on a segment inside the bounding primitive' % st, desc)
@@ -880,8 +920,57 @@ def e2e_stream(ctx, n_cases, cap):
                 break
             acc = [a + b for a, b in zip(acc, e1)]
             ok = check_oracle(ctx, cfg, m['step'], 2, s, [0.0] * nb, e1, desc, slack=1e-7 * scale) and ok
+            Ls, ps = pieces(cfg, s)
+            if ps is not None:
+                check_literal(ctx, cfg, m['step'], 2, s, Ls, ps, cell_entries(ctx, cfg, m['step'], 2, s, e1, [0.0] * nb, desc), desc,
+                              slack=1e-7 * scale)
         if ok and not close(acc, m['ent'], TOL, 1e-300):
             ctx.fail('C10:%s:trace-not-sum-of-segments' % cfg['geo'], 'traced spectrum %r is not the sum over the path segments %r' % (m['ent'], acc), desc)
+
+
+def e2e_stream(ctx, n_cases, cap):
+    """K(b) + S end to end through RayTransferBox / RayTransferCylinder and Ray.trace"""
+    from raysect.optical import World
+    rng = ctx.rng
+    lines, metas, glines, gexp = [], [], [], []
+    for it in range(n_cases):
+        edge = it % 5 == 4
+        world = World()
+        tr = None if edge else rnd_transform(rng)
+        cfg = make_cart(rng, edge) if rng.random() < 0.45 else make_cyl(rng, edge)
+        sh = cfg['shape']
+        if cfg['geo'] == 'cart':
+            span = max(sh[a] * cfg['steps'][a] for a in range(3))
+        else:
+            span = max(2 * (cfg['rmin'] + sh[0] * cfg['steps'][0]), sh[2] * cfg['steps'][2])
+        step_arg = None if rng.random() < 0.5 else rnd_step(rng, cfg, span, edge, cap)
+        rt, rec, bound, gl, ge = build_rt(ctx, cfg, step_arg, tr, world)
+        glines.append(gl)
+        gexp.append(ge)
+        for _ in range(3):
+            o, d, rcls = gen_ray(rng, cfg, bound, edge)
+            m = trace_ray(ctx, cfg, rt, rec, tr, bound, o, d, rcls, step_arg, world, lines)
+            if m is not None:
+                metas.append(m)
+    outs = ctx.driver(lines) if lines else []
+    gout = ctx.driver(glines)
+    judge_e2e(ctx, metas, outs, glines, gexp, gout)
+
+
+def replay_e2e(ctx, r):
+    from raysect.optical import World, AffineMatrix3D
+    cfg = cfg_from_desc(r)
+    world = World()
+    tr = AffineMatrix3D(r['transform']) if r.get('transform') else None
+    rt, rec, bound, gl, ge = build_rt(ctx, cfg, r.get('step_arg'), tr, world)
+    lines = []
+    m = trace_ray(ctx, cfg, rt, rec, tr, bound, r['origin'], r['direction'], r.get('cls', 'replay'), r.get('step_arg'), world, lines)
+    outs = ctx.driver(lines) if lines else []
+    gout = ctx.driver([gl])
+    if m is not None:
+        ctx.log('replay: traced spectrum %r' % (m['ent'],))
+        ctx.log('replay: segments %r' % (m['segs'],))
+    judge_e2e(ctx, [m] if m is not None else [], outs, [gl], [ge], gout)
 
 
 def _along(s, o, d):
@@ -942,8 +1031,8 @@ def period_stream(ctx, n_cases, cap):
                 ctx.fail('C10:cyl:in-grid-segment-raised', 'integrate raised %s/%s' % (st1, st2), desc)
             continue
         Lr = math.dist(rot[:3], rot[3:])
-        n, dt = doc_plan(L, step, 2)
-        n2, _ = doc_plan(Lr, step, 2)
+        n, dt = doc_plan(L, step, 2, 'cyl')
+        n2, _ = doc_plan(Lr, step, 2, 'cyl')
         if n != n2:
             ctx.count('P:n-differs-by-rounding')
             continue
@@ -1030,7 +1119,8 @@ def run_corpus(ctx):
 def cfg_from_desc(r):
     sh = tuple(r['shape'])
     vm = np.array(r['voxel_map'], dtype=np.int32).reshape(sh)
-    cfg = dict(geo=r['geo'], shape=sh, steps=tuple(r['steps']), vmap=vm, mask=None, kind='merge')
+    ident = vm.ravel().tolist() == list(range(vm.size))
+    cfg = dict(geo=r['geo'], shape=sh, steps=tuple(r['steps']), vmap=None if ident else vm, mask=None, kind='id' if ident else 'merge')
     if r['geo'] == 'cyl':
         cfg['rmin'] = r['rmin']
         cfg['period'] = r['period']
@@ -1039,8 +1129,10 @@ def cfg_from_desc(r):
 
 def replay_one(ctx, r):
     """re-run one recorded direct-call input on the implementation (oracle) and the model"""
+    if r.get('kind') == 'e2e':
+        return replay_e2e(ctx, r)
     if 'segment' not in r:
-        ctx.log('replay: end-to-end / pipeline inputs are re-generated from the seed; running the streams')
+        ctx.log('replay: this input class is re-generated from the seed by the streams')
         return
     cfg = cfg_from_desc(r)
     ms = r.get('min_samples', 2)
@@ -1058,7 +1150,20 @@ def replay_one(ctx, r):
         ctx.broke('correspondence', 'C10 replay', dict(model=(mst, ment), implementation=(st, ent), input=r))
     if st == 'ok' and len(spec0) == mat.bins:
         check_oracle(ctx, cfg, r['step'], ms, r['segment'], spec0, ent, r)
-        check_merge(ctx, dict(cfg=cfg, step=r['step'], ms=ms, seg=r['segment'], ent=ent, spec0=spec0, desc=r))
+        cells = cell_entries(ctx, cfg, r['step'], ms, r['segment'], ent, spec0, r)
+        check_merge(ctx, dict(cfg=cfg, step=r['step'], ms=ms, seg=r['segment'], ent=ent, spec0=spec0, desc=r), cells)
+        L, pcs = pieces(cfg, r['segment'])
+        if pcs is not None:
+            check_literal(ctx, cfg, r['step'], ms, r['segment'], L, pcs, cells, r)
+
+
+def setup_translator(ctx):
+    from harness.translators import raytransfer as tr
+    vals, problems = tr.run()
+    EXTRA.update(vals)
+    ctx.extra['sample_count_rule'] = dict(extra=vals, meaning='n = max(min_samples, int(length/step) + extra)')
+    for p in problems:
+        ctx.broke('correspondence', 'C10 translator', p)
 
 
 def run(ctx):
@@ -1073,8 +1178,9 @@ def run(ctx):
                     'numpy boolean-mask assignment order (compared with mapFromMask on every run)']
     ctx.assumptions += ['coordinates within int range after division by the cell size (C cast of out-of-range doubles is undefined)',
                         'end-to-end: rays within 1e-4 cell of grazing an outer face of the bounding primitive are skipped (counted)',
-                        'per-cell bound is |entry - chord| <= dt per maximal interval of ray∩cell (2 for a ring cell crossed twice, '
-                        'more for periodic copies); the literal 2*step-per-cell reading is monitored, not enforced (notes/C10.md)']
+                        'sampling bound |entry - chord| <= dt per maximal interval of ray∩cell is enforced for every source; the literal '
+                        '2*step-per-cell clause is enforced per cell under the identity map (signatures *:cell-error-exceeds-two-steps:*)']
+    setup_translator(ctx)
     ctx.lean_check(['Cherab.Props.C10'], 'Cherab/Audit/C10.lean')
     run_corpus(ctx)
     cap = ctx.n(3000, 20000)
@@ -1091,8 +1197,9 @@ def replay(ctx, path):
     print(json.dumps(r, indent=1, default=str)[:3000])
     rp = r.get('replay') or {}
     inp = rp.get('input', rp)
-    if isinstance(inp, dict) and 'segment' in inp and 'voxel_map' in inp:
+    if isinstance(inp, dict) and ('segment' in inp or inp.get('kind') == 'e2e') and 'voxel_map' in inp:
         ctx.rule = 'replay of one recorded input'
+        setup_translator(ctx)
         replay_one(ctx, inp)
         return ctx.finish()
     run(ctx)
